@@ -563,6 +563,12 @@ func runFlavour(bin string, m *meta, id, tier, fl string, seed uint64, out *runO
 				mu.Lock()
 				out.violations = append(out.violations, v...)
 				mu.Unlock()
+				if kind == "hang" && len(v) > 0 {
+					// A hang costs a full watchdog period per block; the verdict
+					// is already "violated", so do not pay it again for the
+					// remaining blocks of this worker.
+					return
+				}
 				// Carry on with the blocks after the bad one.
 				var rest []int
 				seen := false
